@@ -665,7 +665,13 @@ def _r7(repo: Repo, ctx) -> None:
         to a `::` boundary: a bare string prefix also swallows user modules
         such as `system` or `schemas`."""
     ctx.floor('C02.R7', 3)
-    # (a)
+    propagation_rule(repo, ctx, 'C02.R7')
+    _r7_rest(repo, ctx)
+
+
+def propagation_rule(repo: Repo, ctx, rule: str) -> None:
+    """(a) of C02.R7; also claimed as C10.R4"""
+    ctx.floor(rule, 1)
     n = 0
     for qn, f in sorted(repo.functions.items()):
         if not f.module.name.startswith('edb.schema.'):
@@ -682,7 +688,7 @@ def _r7(repo: Repo, ctx) -> None:
             ctx.saw(f)
             it = norm(lp.iter)
             ok = 'descendants(' in it
-            ctx.ob('C02.R7', f'{f.qualname.split("edb.schema.")[-1]}:'
+            ctx.ob(rule, f'{f.qualname.split("edb.schema.")[-1]}:'
                    f'tagged-propagation-reaches-all-descendants', ok,
                    f'{f.qualname} propagates over `{it}` and tags every '
                    f'propagated command implicit_propagation, which stops '
@@ -691,7 +697,10 @@ def _r7(repo: Repo, ctx) -> None:
                    f'pointer keeps its old name in grandchildren)',
                    f'{f.module.rel()}:{lp.lineno}', sample=it)
     if n < 1:
-        raise AnalysisError('C02.R7: no tagged propagation loop found')
+        raise AnalysisError(f'{rule}: no tagged propagation loop found')
+
+
+def _r7_rest(repo: Repo, ctx) -> None:
     # (b)
     st = repo.cls('edb.schema.scalars.ScalarType')
     ad = st.methods.get('as_alter_delta')
